@@ -58,7 +58,33 @@ def _classes():
         def process_EventDone(self, event):
             self._rec("done", event)
 
-    return EvCustom, Recorder
+    class Age(Feature):
+        """A feature that observes no event and keeps its state in `parse` (the number of observations served since the
+        start of the episode): `reset` re-runs `__init__`, so it starts afresh with every episode."""
+
+        def __init__(self):
+            import gymnasium.spaces
+            import numpy as np
+
+            super().__init__(space=gymnasium.spaces.Box(0.0, np.inf, (1,), float))
+            self.n = 0
+
+        def parse(self):
+            import numpy as np
+
+            self.n += 1
+            return np.array([float(self.n)])
+
+    return EvCustom, Recorder, Age
+
+
+def _feature_obs(obs):
+    """what the parse-only feature contributed to the observation (None when the state serves no dictionary)"""
+    try:
+        v = obs["Age"]
+        return float(v[0])
+    except Exception:  # noqa
+        return None
 
 
 def ot(t) -> str:
@@ -77,7 +103,7 @@ class EnvSession:
         from tradingenv.transmitter import Transmitter
         import tradingenv.rewards as rw
 
-        EvCustom, Recorder = _classes()
+        EvCustom, Recorder, Age = _classes()
         self.case, self.r, self.name = case, run, name
         self.emit_use = emit_use
         r = run
@@ -155,7 +181,7 @@ class EnvSession:
                 pass
             run.tags.add("shared-transmitter")
         try:
-            self.env = TradingEnv(action_space=space, state=IState([rec], save=False), reward=reward, transmitter=tx,
+            self.env = TradingEnv(action_space=space, state=IState([rec, Age()], save=False), reward=reward, transmitter=tx,
                                   initial_cash=float(self.deposit), broker_fees=BrokerFees(markup, self.rate, prop, fixed),
                                   latency=lat_us / 1e6, steps_delay=int(case.get("delay", 0)),
                                   episode_length=case.get("eplen"))
@@ -292,11 +318,12 @@ class EnvSession:
             try:
                 try:
                     if ep_override is not None:
-                        self.env.reset(fold, episode_length=ep_override)
+                        obs0 = self.env.reset(fold, episode_length=ep_override)
                     elif fold != "training-set" or self.case.get("folds"):
-                        self.env.reset(fold)
+                        obs0 = self.env.reset(fold)
                     else:
-                        self.env.reset()
+                        obs0 = self.env.reset()
+                    o["feature_obs"] = _feature_obs(obs0)
                     st = f"ok {'true' if self.env._done else 'false'} {ot(self.env.now())}"
                 except EndOfEpisodeError:
                     st = "err eoe"
@@ -339,6 +366,7 @@ class EnvSession:
                     pass
             try:
                 obs, reward, done, info = self.env.step(action)
+                o["feature_obs"] = _feature_obs(obs)
                 traded = "_rebalancing" in info
                 st = (f"ok {fr(reward)} {'true' if done else 'false'} {'true' if traded else 'false'} "
                       f"{len(self.env.broker.track_record)} {ot(self.env.now())}")
@@ -363,6 +391,8 @@ class EnvSession:
         r.op("state", self.state_line(), tol)
         r.op("nrec", str(len(self.env.broker.track_record)))
         o.update(log=entries, pos=self.positions(), now=self.env.now(), nrec=len(self.env.broker.track_record))
+        o["cash"] = sum((F(v) for c, v in self.env.broker.holdings_quantity.items() if c.symbol == "USD"), Fraction(0))
+        o["margins"] = {c.symbol: F(v) for c, v in self.env.broker.holdings_margins.items() if c.symbol != "USD"}
         try:
             o["nlv"] = F(self.env.broker.net_liquidation_value(False))
             r.op("nlv", fr(o["nlv"]), tol)
